@@ -5,7 +5,7 @@ CONSTANTS
   MaxPool = 1
   MaxSize = 64
   Raise = FALSE
-  Devs = {"UnnamedNoAlign", "UnionUnnamedIgnored", "PackedNoFinalAlign"}
+  Devs = {}
   Widths = {}
   Emit = TRUE
   CharSigned = TRUE
